@@ -186,6 +186,9 @@ class Fns(object):
         def fn(result):
             b = layer.get("cancel_fn")
             env.rec("ufn", "cancelfn", i, desc(result), b)
+            d = beh(layer, "cancel_dur", result)
+            if d:
+                env.sim.sleep(d)    # e.g. a cancel function talking to a remote service
             if b == "raise":
                 raise env.exc(("cancelfn", i))
             return b == "true"
